@@ -1,3 +1,100 @@
+(* GroupR_inv.v — the decidable clauses of the invariants of Proofs/Group_proofs.v (Inv1, Inv2, Inv3) as one boolean
+   function of a state and the finite set of threads that ever moved.  GroupR.replay evaluates it on states of every
+   replayed round; GroupR_proofs.inv_b_true shows it is true on every state the replay can reach (fewer than 2^32
+   generations), so a `false` here is a concrete state that contradicts the development (a slip in the ghost bookkeeping
+   of the model or a proof that no longer covers the model).  Definitions only: copies of the field functions and of the
+   program-point classes of the proofs files are used so that this file does not depend on any proof. *)
 From Coq Require Import ZArith Bool List.
 From Verif Require Import Word Conc Gen_consts Gen_group Group.
-Definition inv_b (tids : list Z) (s : gst) : bool := true.
+Import ListNotations.
+Local Open Scope Z_scope.
+
+Definition bfw (x : Z) := x mod 2.
+Definition bfn (x : Z) := (x / 2) mod 2.
+Definition bfv (x : Z) := (x / 4) mod 1073741824.
+Definition bfg (x : Z) := x / 4294967296.
+Definition wfw_b (x : Z) : bool := (0 <=? x) && (x <? 18446744073709551616).
+Definition bcls (p : pc) : Z :=
+  match p with
+  | PNfHead _ | PNfLoad | PNfCas _ _ => 1
+  | PSnapHead _ _ | PSnapStore _ _ | PSnapTail _ _ => 2
+  | PFire _ _ => 3
+  | _ => 0
+  end.
+Definition tok_eqb (a b : tok) : bool :=
+  match a, b with
+  | TNone, TNone | TWord, TWord => true
+  | TPusher x, TPusher y | TSnap x, TSnap y => x =? y
+  | _, _ => false
+  end.
+Definition nonempty {A : Type} (l : list A) : bool := match l with [] => false | _ => true end.
+Fixpoint nodup_b (l : list Z) : bool := match l with [] => true | x :: r => negb (existsb (Z.eqb x) r) && nodup_b r end.
+Fixpoint zrange (n : nat) : list Z := match n with O => [] | S k => zrange k ++ [Z.of_nat k] end.
+
+(* ---- Inv1 ---- *)
+Definition G1_b (s : gst) : bool :=
+  wfw_b (word s) && (0 <=? gfull s) && (bfg (word s) =? gfull s mod 4294967296).
+Definition Cw_b (s : gst) (t : Z) : bool := (gsnap s t <=? gfull s) && ((gfull s <=? gsnap s t) || wz s t).
+Definition T1_b (s : gst) (t : Z) : bool :=
+  match pcs s t with
+  | PLvLoop _ old => wfw_b old
+  | PSnapHead _ st | PSnapStore _ st | PSnapTail _ st | PFire _ st => wfw_b st
+  | PWtCas _ old new => wfw_b old && (new =? Z.lor old HW) && (bfg old =? gsnap s t mod 4294967296) && Cw_b s t
+  | PSlow _ g | PSleep _ g | PSlowLoad _ g _ => (g =? gsnap s t mod 4294967296) && Cw_b s t
+  | PRetV v => negb (v =? 0) || wz s t
+  | PNfCas old new => wfw_b old && (new =? Z.lor old HN)
+  | _ => true
+  end.
+(* ---- Inv2 ---- *)
+Definition G2_b (s : gst) : bool :=
+  match ntok s with
+  | TNone => negb (nonempty (nq s)) && (bfn (word s) =? 0)
+  | TPusher p => nonempty (nq s) && (bfn (word s) =? 0) && (bcls (pcs s p) =? 1)
+  | TWord => nonempty (nq s) && (bfn (word s) =? 1)
+  | TSnap u => nonempty (nq s) && (bfn (word s) =? 0) && (bcls (pcs s u) =? 2)
+  end.
+Definition T2_b (s : gst) (t : Z) : bool :=
+  (negb (bcls (pcs s t) =? 1) || tok_eqb (ntok s) (TPusher t)) &&
+  (negb (bcls (pcs s t) =? 2) || tok_eqb (ntok s) (TSnap t)) &&
+  (if bcls (pcs s t) =? 3 then nonempty (held s t) else negb (nonempty (held s t))) &&
+  match pcs s t with PNfCas o n => n =? Z.lor o HN | _ => true end.
+Definition I2_b (tids : list Z) (s : gst) : bool :=
+  (0 <=? nreg s) && nodup_b (ids (nq s)) && forallb (fun t => nodup_b (ids (held s t))) tids &&
+  forallb (fun i => (0 <=? i) && (i <? nreg s) && (nplace s i =? 0)) (ids (nq s)) &&
+  forallb (fun t => forallb (fun i => (0 <=? i) && (i <? nreg s) && (nplace s i =? t) && (0 <? t)) (ids (held s t))) tids &&
+  forallb (fun i => (fcnt s i =? (if nplace s i =? -1 then 1 else 0)) &&
+                    (negb (nplace s i =? 0) || existsb (Z.eqb i) (ids (nq s))) &&
+                    (negb (0 <? nplace s i) || existsb (Z.eqb i) (ids (held s (nplace s i)))) &&
+                    ((nplace s i =? 0) || (nplace s i =? -1) || (0 <? nplace s i)))
+          (zrange (Z.to_nat (nreg s))) &&
+  forallb (fun q => negb (snd q =? 0)) (nq s).
+(* ---- Inv3 ---- *)
+Definition WHp_b (p : pc) : bool :=
+  match p with
+  | PSnapHead _ st | PSnapStore _ st | PSnapTail _ st | PFire _ st => bfw st =? 1
+  | PWakeFutex _ => true
+  | _ => false
+  end.
+Definition LWp_b (p : pc) : bool := match p with PLvLoop _ old => bfw old =? 1 | _ => false end.
+Definition Jp_b (p : pc) : bool :=
+  match p with PLvLoop _ old => (bfv old =? 0) && ((bfn old =? 1) || (bfw old =? 1)) | _ => false end.
+Definition Wake_b (tids : list Z) (s : gst) : bool :=
+  existsb (fun u => WHp_b (pcs s u)) tids || ((bfw (word s) =? 1) && existsb (fun u => LWp_b (pcs s u)) tids).
+Definition J_b (tids : list Z) (s : gst) : bool :=
+  negb (bfv (word s) =? 0) || negb ((bfn (word s) =? 1) || (bfw (word s) =? 1)) || existsb (fun u => Jp_b (pcs s u)) tids.
+Definition Oc_b (s : gst) : bool :=
+  (0 <=? outst s) && (outst s <? 1073741824) && (bfv (word s) =? (1073741824 - outst s) mod 1073741824).
+Definition T3_b (tids : list Z) (s : gst) (t : Z) : bool :=
+  (match slp s t with Sleeping => match pcs s t with PSleep _ _ => true | _ => false end | _ => true end) &&
+  (match pcs s t with
+   | PSlow _ _ | PSleep _ _ | PSlowLoad _ _ _ =>
+       negb (gsnap s t =? gfull s) || ((bfw (word s) =? 1) && negb (bfv (word s) =? 0))
+   | PWtCas _ old _ => negb (bfv old =? 0)
+   | PNfCas old _ => negb (u32 old =? 0)
+   | _ => true
+   end) &&
+  (match slp s t with Sleeping => negb (gsnap s t <? gfull s) || Wake_b tids s | _ => true end).
+
+Definition inv_b (tids : list Z) (s : gst) : bool :=
+  G1_b s && G2_b s && I2_b tids s && Oc_b s && J_b tids s &&
+  forallb (fun t => T1_b s t && T2_b s t && T3_b tids s t) tids.
